@@ -334,6 +334,11 @@ func (fv *FuncVer) loopFrame(st *State, f *Frame, key, phase string, hks []strin
 		return
 	}
 	env := fv.frameEnv(st, f)
+	for k, v := range fv.entryVars {
+		if _, ok := env.vars[k]; !ok {
+			env.vars[k] = v // pointee:<param> refers to the entry value of the parameter
+		}
+	}
 	allowed := map[string]bool{}
 	var pts []pointee
 	for _, k := range fv.parseAssigns(as, env) {
